@@ -161,6 +161,33 @@ CLAIMED = {
         note='trusted: z3, engine models (replayed per path through loadSchemaFile), vf/oracles/schemarules.py; '
              'XML well-formedness, <import>, dotted datatype names are outside the claim',
         ref='DESIGN.md section 7 C10'),
+    'C11': dict(
+        text='Differential: for four composed/expanded schema pairs (extends chain of length 3 with key-type '
+             'override, inherited datatype, wildcard defaults re-normalised, implements not inherited; prefixes '
+             'nested to depth 3; schema-level extends of in-memory bases in sub/parent directories; a diamond of '
+             'three generated component packages imported repeatedly) and text skeletons with symbolic tokens, '
+             'z3 shows on every path that the real loader gives equal value trees, or rejects both.',
+        note='trusted: z3, engine models (replayed per path); the expansions are hand-written in '
+             'vf/harness/c11.py; the oracle is the real code on the expanded schema',
+        ref='DESIGN.md section 7 C11'),
+    'C12': dict(
+        text='For a schema with abstract types and concrete types that implement / extend / ignore them and two '
+             'generated component packages, with symbolic section-type and name tokens and %import lines before, '
+             'between and after the uses, in single loads and sequences of up to 3 loads against one schema '
+             'object, z3 shows on every path that accept/reject and value trees equal those of a conformance '
+             'oracle whose vocabulary an import extends from that line on for that load only; a separate '
+             'obligation compares getsubtypenames() of the schema before and after (known finding F10).',
+        note='trusted: z3, engine models (replayed per path), conformance oracle; package names concrete',
+        ref='DESIGN.md section 7 C12'),
+    'C13': dict(
+        text='Histories of up to 3 (thorough 4) operations, each chosen by a z3 integer from {valid load + '
+             'mutation of every reachable list/dict, valid load, syntax / matching / conversion / section-'
+             'datatype failure, %import load, load with overrides}, run against ONE schema object; every step '
+             'equals the same load against a fresh schema; a separate obligation compares a structural digest '
+             'of the schema before and after (known finding F10).',
+        note='the solver enumerates a finite history space (honest note in DESIGN); one value token symbolic; '
+             'oracle = real code on a fresh schema',
+        ref='DESIGN.md section 7 C13'),
 }
 
 NOT_YET = 'harness not built yet in this revision (see DESIGN.md section 7 for the plan)'
